@@ -17,6 +17,8 @@ CLAIMS = {
          "decided: guarded-field discipline + lock balance, for all functions of package originium and wal, unbounded (no schedule executed). NOT decided by this check: panic freedom of the whole engine (covered per function in the other properties' obligations only where a function is under contract), pooled-buffer ownership (C11), and that the discipline implies data-race freedom (assumed: Go memory model DRF-SC; sync primitives correct). skiplist/filter/tableHandle/Txn objects are confined to their owner (reached only through a guarded field or by one goroutine). Uncontracted callees are abstracted by a static write-set analysis (dynamic calls assumed to store only through their arguments).", "4-C12"),
  "C11": ("Partial proof, parts named: (1) ownership, for all inputs: Data/Index/Footer/Meta.Encode and table.Build return a fresh allocation of the call (arrid(result) >= alloc at entry), never a slice of a pooled buffer, and leave every buffer that was in the pool at entry with unchanged content (ghost BufOwned/BufC/BufStore; one fix: commit made this true). (2) Footer and Meta: Encode produces exactly the little-endian token string of the fields and Decode of exactly that string returns the fields (round trip as a lemma over the two contracts), wrong magic and short input give an error and leave the receiver unchanged. (3) the 16-bit length fields: every narrowing conversion in Data.Encode and Index.Encode is an obligation (value fits); those for key/value/suffix lengths >= 65536 fail and are listed known findings (D11, demonstrated against the real code in findings/table/zz_d11_test.go). (4) ErrorWriter.Write / ErrorReader.Read glue and utils.LCP (longest common prefix, for all strings).",
          "NOT yet under contract (no obligation generated, so a change there is not detected by this check): byte content of data and index blocks versus the entry list (Data/Index Encode-Decode round trip), Data/Index.Decode, wal.Write/Read and the thrift record codec, s2 compression (utils.Compress/Decompress trusted as inverse functions). 'whatever other goroutines encode concurrently' is decided as ownership: the result is unreachable from the pool, so no other activation can write it (sync.Pool trusted).", "4-C11"),
+ "C13": ("Proof on the consumer loop `process` (the only writer of doneUntil), for every sequence of consumed marks (the received mark is unconstrained at every iteration: any arrival order, repeated indices, Done without Begin, any number in flight), with ghost books of the consumed history (begun-minus-finished PB, first-seen, value of doneUntil when an index became open) and loop invariants for all four loops: (monotone) every Store writes a strictly larger value; (safety) an index that is open in the books never has doneUntil >= it unless doneUntil has not moved since it became open; (catch-up) after every iteration the heap is empty or its minimum is unfinished, every consumed index that is no longer pending is <= doneUntil, hence doneUntil >= t once every begun index up to t is finished - as a state predicate that holds as soon as the marks have been consumed; (waiters) a waiter channel is closed only when doneUntil >= its index, every registered waiter whose index is <= doneUntil is closed before the next mark is taken, no channel is closed twice or when nil, a waiter above the mark stays registered. lowHeap.Len/Less/Swap/Push/Pop meet the heap.Interface contracts. The exact-books invariant fails for a Done consumed before its Begin: known finding D15 (demonstrated on the real type).",
+         "trusted: container/heap over a correct heap.Interface returns the minimum (library contract heap.*[*watermark.lowHeap]); sync/atomic sequentially consistent, doneUntil single-writer; channel FIFO: consumption order = send order; the client methods Begin/Done/WaitForMark (channel sends, select) are trusted contracts whose link to the loop invariant is FIFO delivery - a change inside Begin/Done/WaitForMark is not detected by this check; every waiter request carries a channel of its own (assumption listed in evidence); scheduling fairness ('without further calls' = once the buffered marks are consumed); sequential semantics between blocking operations", "4-C13"),
  "C07": ("Proof at the level of fingerprints: hasConflict returns true exactly when a remembered committed transaction with ts > readTs wrote a read fingerprint (nested-loop invariants); cleanUpCommittedTxns keeps exactly the entries above the new mark (in-place filter with aliasing slices); newCommitTs refuses exactly when the ghost commit history Hist contains such a transaction (oracle invariant orcInv/histInv: nothing above the clean-up mark is forgotten, the mark never exceeds an open reader); Get records a fingerprint only for store reads; Commit returns ErrConflictTxn iff that holds and then changes neither View nor Hist; read-only / write-only transactions cannot conflict (empty readsFp).",
          "sequential semantics of each critical section (oracle lock held); watermark client contracts trusted (justified by C13); utils.Hash as an uninterpreted deterministic function: the key-level statement equals the fingerprint-level one when no two keys in play collide; DB.search/rawset used through their contracts; fewer than 2^63 commits", "4-C07"),
  "C08": ("Proof: modify/Set/Delete return the documented error in exactly the documented cases and then change nothing; otherwise they only touch the private buffer (frame conditions proved: assigns map pendingWrites, map writesFp). Discard only sets flags and finishes the read mark. Commit on a discarded transaction returns ErrDiscardedTxn, on conflict ErrConflictTxn, in both cases with View and Hist unchanged. View/Update return ErrDBClosed when closed, Update returns the closure's error without calling Commit and with View unchanged.",
